@@ -4,17 +4,29 @@ import HcipyVerif.Model.Detector
 /-! Line-protocol front end of the C17 model (detectors).
 
 ```
-new noiseless|old <s> <dims>            one detector per `new`; dims = coarse shape, slowest first
-new noisy <s> <dims> <dark> <flat|->    NoisyDetector, photon noise off, read noise 0
+new noiseless <s> <dims>                one detector per `new`; dims = coarse shape, slowest first
+new noisy <s> <dims> <dark> <flat|->    NoisyDetector, photon noise off, read noise 0 (`pInit`; `0 -` = `allOff`)
 set flat|dark|sigma <list>              assign a parameter (one value per pixel); set photon 0|1
 int <power-list> <dt> <weight>          -> ok | err value
-read                                    -> ok <image-list> | err attribute
+read                                    -> ok <image-list>            (noiseless: `step`)
+                                           ok <image-list> off|on     (noisy: `pStep`; the flag is `PSt.off` before the read-out)
+                                           ok random off|on           (noisy with photon or read noise on)
+tint input|foreign|plain                the grid label of the power handed to integrate (`tStep`)   -> ok
+tread                                   -> ok detector|input|foreign   (label of the image read out)
+
+reference-level model of the noiseless detector (`rStep`; a handle is the position in the list of references
+handed to the caller, counted from 0 in the order `ralloc` / `rread` hand them out):
+ralloc <list>                           the caller creates a power buffer       -> ok
+rwrite <handle> <list>                  the caller overwrites an array it holds -> ok | err ref
+rint <handle> <dt> <weight>             integrate with that buffer              -> ok | err value
+rread                                   -> ok <image-list>   (the new array, as it is when returned)
+rdump                                   -> ok <[ref,…]> <list;list;…>  references and present contents of all handles
 ```
 -/
 namespace HcipyVerif.Driver.C17
 open HcipyVerif.Proto HcipyVerif.Detector HcipyVerif.Binning
 
-inductive Kind where | noiseless | old | noisy
+inductive Kind where | noiseless | noisy
 deriving BEq
 
 structure St where
@@ -22,6 +34,8 @@ structure St where
   geom : Geom := { dims := [] }
   st : Detector.St Rat := {}
   pst : PSt Rat := { flat := [], dark := [], sigma := [] }
+  rst : RSt Rat := {}
+  tst : TSt := {}
 
 def showObs : Obs Rat → String
   | .done => "ok"
@@ -33,12 +47,12 @@ def showObs : Obs Rat → String
 def apply (st : St) (op : Op Rat) : St × String :=
   match st.kind with
   | .noiseless => let r := Detector.step st.geom st.st op; ({ st with st := r.1 }, showObs r.2)
-  | .old => let r := Detector.stepOld st.geom st.st op; ({ st with st := r.1 }, showObs r.2)
   | .noisy =>
-    let pop : POp Rat := match op with
-      | .integrate p dt w => .integrate p dt w
-      | .readOut => .readOut
-    let r := Detector.pStep st.geom st.pst pop; ({ st with pst := r.1 }, showObs r.2)
+    let r := Detector.pStep st.geom st.pst (lift op)
+    let flag := match op with
+      | .readOut => if st.pst.off st.geom then " off" else " on"
+      | _ => ""
+    ({ st with pst := r.1 }, showObs r.2 ++ flag)
 
 def step (st : St) : List String → St × String
   | ["reset"] => ({}, "ok")
@@ -48,7 +62,6 @@ def step (st : St) : List String → St × String
       if s = 0 then (st, "bad-op") else
       match kind with
       | "noiseless" => ({ kind := .noiseless, geom := { dims := dims, s := s } }, "ok")
-      | "old" => ({ kind := .old, geom := { dims := dims, s := s } }, "ok")
       | _ => (st, "bad-op")
     | _, _ => (st, "bad-op")
   | ["new", "noisy", s, dims, dark, flat] =>
@@ -60,8 +73,8 @@ def step (st : St) : List String → St × String
       match flat? with
       | some fl =>
         if fl.length ≠ n then (st, "bad-op") else
-        ({ kind := .noisy, geom := { dims := dims, s := s },
-           pst := { flat := fl, dark := List.replicate n dark, sigma := List.replicate n 0 } }, "ok")
+        let g : Geom := { dims := dims, s := s }
+        ({ kind := .noisy, geom := g, pst := pInit g dark fl }, "ok")
       | none => (st, "bad-op")
     | _, _, _ => (st, "bad-op")
   | ["int", p, dt, w] =>
@@ -69,6 +82,56 @@ def step (st : St) : List String → St × String
     | some p, some dt, some w => apply st (.integrate p dt w)
     | _, _, _ => (st, "bad-op")
   | ["read"] => apply st .readOut
+  | ["tint", p] =>
+    let p? : Option PTag := match p with
+      | "input" => some .onInput
+      | "foreign" => some .onForeign
+      | "plain" => some .plain
+      | _ => none
+    match p? with
+    | some p => ({ st with tst := (tStep st.tst (.integrate p)).1 }, "ok")
+    | none => (st, "bad-op")
+  | ["tread"] =>
+    let r := tStep st.tst .readOut
+    ({ st with tst := r.1 }, match r.2 with
+      | some .detector => "ok detector"
+      | some .input => "ok input"
+      | some .foreign => "ok foreign"
+      | none => "bad-op")
+  | ["ralloc", v] =>
+    if st.kind != .noiseless then (st, "bad-op") else
+    match parseRatList? v with
+    | some v => ({ st with rst := (rStep st.geom st.rst (.alloc v)).1 }, "ok")
+    | none => (st, "bad-op")
+  | ["rwrite", k, v] =>
+    if st.kind != .noiseless then (st, "bad-op") else
+    match parseNat? k, parseRatList? v with
+    | some k, some v =>
+      match st.rst.known[k]? with
+      | some r =>
+        let res := rStep st.geom st.rst (.write r v)
+        ({ st with rst := res.1 }, if res.2 = .done then "ok" else "err ref")
+      | none => (st, "err ref")
+    | _, _ => (st, "bad-op")
+  | ["rint", k, dt, w] =>
+    if st.kind != .noiseless then (st, "bad-op") else
+    match parseNat? k, parseRat? dt, parseRat? w with
+    | some k, some dt, some w =>
+      match st.rst.known[k]? with
+      | some r =>
+        let res := rStep st.geom st.rst (.integrate r dt w)
+        ({ st with rst := res.1 }, if res.2 = .done then "ok" else "err value")
+      | none => (st, "err ref")
+    | _, _, _ => (st, "bad-op")
+  | ["rread"] =>
+    if st.kind != .noiseless then (st, "bad-op") else
+    let res := rStep st.geom st.rst .readOut
+    match res.2 with
+    | .ref r => ({ st with rst := res.1 }, "ok " ++ showRatList (res.1.at r))
+    | _ => (st, "bad-op")
+  | ["rdump"] =>
+    if st.kind != .noiseless then (st, "bad-op") else
+    (st, "ok " ++ showNatList st.rst.known ++ " " ++ showRatLists (st.rst.known.map st.rst.at))
   | ["set", "photon", b] =>
     if st.kind != .noisy then (st, "bad-op") else
     match b with
